@@ -2,6 +2,7 @@ package main
 
 import (
 	"context"
+	"regexp"
 	"fmt"
 	"os"
 	"os/exec"
@@ -26,7 +27,86 @@ var fmfSolver = solverSpec{"cvc5-fmf", func(f string, t int) []string {
 	return []string{"cvc5", "--finite-model-find", fmt.Sprintf("--tlimit=%d", t*1000), f}
 }}
 
-func buildQuery(fr *FuncResult, o *Obligation) string {
+var symRe = regexp.MustCompile(`[A-Za-z_][A-Za-z0-9_$!.]*`)
+
+func symsOf(line string) []string { return symRe.FindAllString(line, -1) }
+
+func isGuardSym(s string) bool {
+	return strings.HasPrefix(s, "reach_") || strings.HasPrefix(s, "edge_") || strings.HasPrefix(s, "deferred!")
+}
+
+// isGenerated: a nullary symbol created by the generator (fresh constants, defined terms, initial components, parameters).
+func isGenerated(s string) bool {
+	return strings.Contains(s, "!") || strings.HasSuffix(s, "$init")
+}
+
+// sliceScript keeps the lines of the prefix in the cone of influence of the goal. Dropping assumptions is sound for
+// `unsat` answers; any other answer on a sliced query is re-decided on the full query.
+func sliceScript(lines []string, goal ...string) []string {
+	needed := map[string]bool{}
+	add := func(text string) {
+		for _, s := range symsOf(text) {
+			if isGenerated(s) {
+				needed[s] = true
+			}
+		}
+	}
+	for _, g := range goal {
+		add(g)
+	}
+	type ln struct {
+		def  string
+		syms []string
+	}
+	info := make([]ln, len(lines))
+	for i, l := range lines {
+		if strings.HasPrefix(l, "(define-fun ") {
+			rest := l[len("(define-fun "):]
+			info[i].def = rest[:strings.IndexByte(rest, ' ')]
+		}
+		for _, s := range symsOf(l) {
+			if isGenerated(s) {
+				info[i].syms = append(info[i].syms, s)
+			}
+		}
+	}
+	included := make([]bool, len(lines))
+	for changed := true; changed; {
+		changed = false
+		for i := len(lines) - 1; i >= 0; i-- {
+			if included[i] {
+				continue
+			}
+			take := false
+			if info[i].def != "" {
+				take = needed[info[i].def]
+			} else {
+				for _, s := range info[i].syms {
+					if needed[s] && !isGuardSym(s) {
+						take = true
+						break
+					}
+				}
+			}
+			if take {
+				included[i] = true
+				changed = true
+				for _, s := range info[i].syms {
+					needed[s] = true
+				}
+			}
+		}
+	}
+	var out []string
+	for i, l := range lines {
+		if included[i] {
+			out = append(out, l)
+		}
+	}
+	return out
+}
+
+func buildQuery(fr *FuncResult, o *Obligation, sliced bool) string {
 	var sb strings.Builder
 	sb.WriteString("(set-option :produce-models true)\n")
 	sb.WriteString(prelude)
@@ -34,7 +114,11 @@ func buildQuery(fr *FuncResult, o *Obligation) string {
 		sb.WriteString(d)
 		sb.WriteString("\n")
 	}
-	for _, l := range fr.Script[:o.Prefix] {
+	lines := fr.Script[:o.Prefix]
+	if sliced {
+		lines = sliceScript(lines, o.Reach.s, o.Cond.s)
+	}
+	for _, l := range lines {
 		sb.WriteString(l)
 		sb.WriteString("\n")
 	}
@@ -46,6 +130,9 @@ func buildQuery(fr *FuncResult, o *Obligation) string {
 		sb.WriteString("(assert (not " + o.Cond.s + "))\n")
 	}
 	sb.WriteString("(check-sat)\n")
+	if o.Expect == "unsat" {
+		sb.WriteString("(get-model)\n")
+	}
 	return sb.String()
 }
 
@@ -81,16 +168,32 @@ func runSolver(ctx context.Context, s solverSpec, file string, timeout int) solv
 }
 
 // solveOne races the solvers on one obligation.
+// solveOne races the solvers on one obligation: first on the sliced query (an unsat answer there is final), then,
+// if that does not yield unsat, on the full query.
 func solveOne(workdir string, idx int, fr *FuncResult, o *Obligation, timeout int) {
-	q := buildQuery(fr, o)
-	file := filepath.Join(workdir, fmt.Sprintf("q%05d.smt2", idx))
+	if o.Expect == "unsat" {
+		if raceQuery(workdir, fmt.Sprintf("q%05d-sliced.smt2", idx), buildQuery(fr, o, true), o, timeout, true) {
+			return
+		}
+	}
+	o.Seconds0 = o.Seconds
+	if o.Expect == "sat" && timeout > 3 {
+		timeout = 3 // vacuity guards: an unknown answer is tolerated, only `unsat` is an alarm
+	}
+	raceQuery(workdir, fmt.Sprintf("q%05d.smt2", idx), buildQuery(fr, o, false), o, timeout, false)
+	o.Seconds += o.Seconds0
+}
+
+// raceQuery runs all solvers on q. With onlyUnsat it reports success only for an unsat answer.
+func raceQuery(workdir, name, q string, o *Obligation, timeout int, onlyUnsat bool) bool {
+	file := filepath.Join(workdir, name)
 	if len(q) > 8<<20 {
 		o.Status, o.Solver, o.Model = "undecided", "none", "VC larger than 8 MB"
-		return
+		return false
 	}
 	if err := os.WriteFile(file, []byte(q), 0o644); err != nil {
 		o.Status, o.Model = "undecided", err.Error()
-		return
+		return false
 	}
 	o.Query = file
 	ctx, cancel := context.WithCancel(context.Background())
@@ -109,8 +212,12 @@ func solveOne(workdir string, idx int, fr *FuncResult, o *Obligation, timeout in
 	for range set {
 		r := <-ch
 		outs = append(outs, r)
-		if r.result == "sat" || r.result == "unsat" {
+		if r.result == "unsat" || (r.result == "sat" && !onlyUnsat) {
 			decisive = &r
+			break
+		}
+		if r.result == "sat" && onlyUnsat {
+			// a model of the sliced query proves nothing; go on to the full query at once
 			break
 		}
 	}
@@ -118,36 +225,32 @@ func solveOne(workdir string, idx int, fr *FuncResult, o *Obligation, timeout in
 	if decisive == nil {
 		o.Status = "undecided"
 		var parts []string
+		o.Seconds = 0
 		for _, r := range outs {
 			parts = append(parts, fmt.Sprintf("%s: %s (%.1fs)", r.solver, r.result, r.secs))
-			o.Seconds += r.secs
+			if r.secs > o.Seconds {
+				o.Seconds = r.secs
+			}
 		}
 		o.Solver = strings.Join(parts, "; ")
 		if len(outs) > 0 {
 			o.Model = truncate(outs[0].output, 400)
 		}
-		return
+		return false
 	}
 	o.Solver, o.Seconds = decisive.solver, decisive.secs
-	want := o.Expect
-	if decisive.result == want {
+	if onlyUnsat {
+		o.Solver += "/sliced"
+	}
+	if decisive.result == o.Expect {
 		o.Status = "discharged"
-		return
+		return true
 	}
 	o.Status = "refuted"
-	// get a model for the counterexample (separate run with get-model, best effort)
 	if decisive.result == "sat" {
-		mfile := file + ".model.smt2"
-		os.WriteFile(mfile, []byte(q+"(get-model)\n"), 0o644)
-		for _, s := range []solverSpec{solvers[0], solvers[2]} {
-			r := runSolver(context.Background(), s, mfile, timeout)
-			if r.result == "sat" {
-				o.Model = r.output
-				break
-			}
-		}
-		os.Remove(mfile)
+		o.Model = decisive.output
 	}
+	return true
 }
 
 func solveAll(workdir string, frs []*FuncResult, pick func(*Obligation) bool, timeout, parallel int) {
